@@ -3,7 +3,7 @@ from ..core import digest_of
 from ..net import NetWorld, InTap, OutTap, Recorder, start_injector, close, gen_times
 from onl.netdev import TokenBucket, TwoRateTokenBucket
 
-from ..net import valid_workloads as valid  # noqa: E402,F401
+from ..net import valid_workloads_noreuse as valid  # noqa: E402,F401
 
 ID = 'C11'
 SHRINK_KEEP = ('rate', 'bucket', 'peak', 'cir', 'cbs', 'pir', 'pbs')   # configurations stay legal while minimising
